@@ -697,6 +697,11 @@ class C18(Prop):
             out.append({"special": "yr-args", "cmd": ["yr"] + (["-C"] if load else []) + flags + ["--"] + pos,
                         "module_names": False, "load": load, "positional": pos})
         out.append({"special": "save-twice", "text": 'rule a { strings: $a = "abc" condition: $a }\n'})
+        # targets that are no file: a pid if it parses as u32 (pids above the kernel's maximum cannot exist)
+        for arg in ["4194999", "+4200001", "4294967295", "4294967296", "99999999999", "12ab", "-5x", "0x10", "4194999 "]:
+            out.append({"special": "input", "arg": arg, "cmd": [rng.choice(["scan", "yr"])]})
+        for arg in ["4195000", "77"]:
+            out.append({"special": "input", "arg": arg, "cmd": [rng.choice(["scan", "yr"])], "exists": True})
         return out
 
     def generate(self, ctx, rng, n):
@@ -952,6 +957,13 @@ class C18(Prop):
             h2 = hashlib.sha256(open(os.path.join(d, "out.bin"), "rb").read()).hexdigest() if first["rc"] == 0 else None
             return {"first": first, "second": second, "unchanged": h1 is not None and h1 == h2, "rc": second["rc"],
                     "stdout": second["stdout"], "stderr": second["stderr"], "cmd": second["cmd"]}
+        if case["special"] == "input":
+            open(os.path.join(d, "r.yar"), "w").write("rule a { condition: true }\n")
+            if case.get("exists"):
+                open(os.path.join(d, case["arg"]), "w").write("some content")
+            if case["cmd"][0] == "scan":
+                return run(["scan", "-f", "r.yar", "--", case["arg"]])
+            return run(["yr", "--", "r.yar", case["arg"]])
         if case["special"] == "yr-args":
             open(os.path.join(d, "r.yar"), "w").write('rule a { strings: $a = "abc" condition: $a }\n')
             open(os.path.join(d, "target"), "w").write("xx abc")
@@ -1015,7 +1027,14 @@ class C18(Prop):
         hc = []
         for case, r in zip(cases, pre):
             if "special" in case:
-                hc.append({"special": "modules"})
+                h = {"special": "modules"}
+                if case["special"] == "input":
+                    a = case["arg"]
+                    body = a[1:] if a[:1] == "+" else a
+                    if body.isdigit() and body.isascii() and int(body) <= 4294967295:
+                        h["pid"] = int(body)
+                    h["path"] = os.path.join(r["dir"], a)
+                hc.append(h)
                 continue
             syms = []
             for x in case.get("defines", []):
@@ -1162,6 +1181,13 @@ class C18(Prop):
                 return (False, False, 0)
             so = bytes.fromhex(cli["stdout"])
             lines = so.split(b"\n")[:-1] if so else []
+            if case["special"] == "input" and case.get("exists"):
+                return "C18_input_exists_case %s %s %d" % (gb(case["arg"]), glist([gbytes(l) for l in lines]), cli["rc"])
+            if case["special"] == "input":
+                errl = [l for l in bytes.fromhex(cli["stderr"]).split(b"\n") if l]
+                return "C18_input_case %s %s %s %s %s %d" % (
+                    gb(case["arg"]), gb(lib.get("process_error", "")), gb(lib.get("file_error", "")),
+                    glist([gbytes(l) for l in lines]), glist([gbytes(l) for l in errl]), cli["rc"])
             if case["special"] == "save-twice":
                 return "C18_save_case %d %d %s" % (cli["first"]["rc"], cli["second"]["rc"], gbool(cli["unchanged"]))
             return "C18_yr_case %s %s %s %s %s %d" % (
